@@ -30,6 +30,14 @@ Bytes m_sub(const Bytes &a, const Bytes &b) { Bytes r(a.size()); int br = 0; for
 Bytes m_inc(const Bytes &a) { Bytes one(a.size()); if (!one.empty()) one[0] = 1; return m_add(a, one); }
 
 // exact-size, poisoned-around buffers at a chosen misalignment
+// exact-size buffer against a hardware guard page (mode 1: page right after the end, 2: right before the start); pooled, no syscalls
+struct GX {
+    XBuf *x; uint8_t *p;
+    GX(const Bytes &v, int mode) { XBuf::guard_mode() = mode; x = new XBuf(v, 0); XBuf::guard_mode() = 0; p = x->p; }
+    GX(const GX &) = delete;
+    Bytes get() const { return x->get(); }
+    ~GX() { delete x; }
+};
 struct Buf {
     uint8_t *base, *p; size_t n; bool pooled;
     Buf(const Bytes &v, size_t align) : n(v.size()) {
@@ -45,6 +53,16 @@ struct Buf {
 #endif
     }
     Bytes get() const { return Bytes(p, p + n); }
+    // the bytes around the operand were filled with 0xa5 before poisoning: any other value means a stray write (e.g. from assembly)
+    bool surroundings_intact() {
+#ifdef VH_ASAN
+        __asan_unpoison_memory_region(base, n + 128);
+#endif
+        bool ok = true;
+        for (uint8_t *q = base; q < p; q++) if (*q != 0xa5) ok = false;
+        for (uint8_t *q = p + n; q < base + n + 128; q++) if (*q != 0xa5) ok = false;
+        return ok;
+    }
     ~Buf() {
 #ifdef VH_ASAN
         __asan_unpoison_memory_region(base, n + 128);
@@ -62,6 +80,7 @@ bool run(const Case &c, std::string &msg) {
         int r = sodium_memcmp(a.p, b.p, len), e = m_equal(c.a, c.b) ? 0 : -1;
         if (r != e) { snprintf(tmp, sizeof tmp, "sodium_memcmp returned %d, expected %d", r, e); msg = tmp; return false; }
         if (a.get() != c.a || b.get() != c.b) { msg = "sodium_memcmp modified an operand"; return false; }
+        if (c.align % 4 == 0) { GX ga(c.a, 1), gb(c.b, 1); if (sodium_memcmp(ga.p, gb.p, len) != e || sodium_compare(ga.p, gb.p, len) != m_compare(c.a, c.b)) { msg = "comparison on guard-page buffers wrong"; return false; } }
         return true;
     }
     case VERIFY: {
@@ -88,6 +107,11 @@ bool run(const Case &c, std::string &msg) {
         Buf a(c.a, c.align);
         sodium_increment(a.p, len);
         if (a.get() != m_inc(c.a)) { msg = "sodium_increment: got " + hex(a.get()) + " expected " + hex(m_inc(c.a)); return false; }
+        if (!a.surroundings_intact()) { msg = "sodium_increment wrote outside its " + std::to_string(len) + "-byte operand"; return false; }
+        if (c.align % 2 == 0) {   // hardware guard pages right after / before the operand: catches accesses from inline assembly that ASan cannot see
+            GX g(c.a, 1); sodium_increment(g.p, len); if (g.get() != m_inc(c.a)) { msg = "sodium_increment (guard-page buffer) wrong result"; return false; }
+            GX h(c.a, 2); sodium_increment(h.p, len);
+        }
         return true;
     }
     case ADD: case SUB: {
@@ -96,6 +120,12 @@ bool run(const Case &c, std::string &msg) {
         if (c.op == ADD) sodium_add(a.p, b.p, len); else sodium_sub(a.p, b.p, len);
         if (a.get() != e) { msg = std::string(c.op == ADD ? "sodium_add" : "sodium_sub") + ": got " + hex(a.get()) + " expected " + hex(e); return false; }
         if (b.get() != c.b) { msg = "second operand modified"; return false; }
+        if (!a.surroundings_intact() || !b.surroundings_intact()) { msg = "sodium_add/sub wrote outside its operands"; return false; }
+        if (c.align % 2 == 0) {
+            GX ga(c.a, 1), gb(c.b, 1); if (c.op == ADD) sodium_add(ga.p, gb.p, len); else sodium_sub(ga.p, gb.p, len);
+            if (ga.get() != e) { msg = "sodium_add/sub (guard-page buffers) wrong result"; return false; }
+            GX ha(c.a, 2), hb(c.b, 2); if (c.op == ADD) sodium_add(ha.p, hb.p, len); else sodium_sub(ha.p, hb.p, len);
+        }
         return true;
     }
     case MEMZERO: {
@@ -202,9 +232,9 @@ void explore_exhaustive(Ctx &ctx) {
         exec(ctx, Case{ INCREMENT, Bytes{ (uint8_t) a }, Bytes(), 0, 0, 0 }, 5, a);
         exec(ctx, Case{ ISZERO, Bytes{ (uint8_t) a }, Bytes(), 0, 0, 0 }, 5, a);
     }
-    // all 2-byte operands for unary ops; 2-byte pairs: every a x structured b (thorough: 4096 b values)
+    // all 2-byte operands for unary ops; 2-byte pairs: every a x structured b (thorough: 144 b values)
     std::vector<uint16_t> bs = { 0, 1, 2, 0x7f, 0x80, 0xff, 0x100, 0x101, 0x1ff, 0x7fff, 0x8000, 0xfeff, 0xff00, 0xfffe, 0xffff, 0x00ff };
-    if (ctx.thorough()) { bs.clear(); for (int i = 0; i < 65536; i += 16) bs.push_back((uint16_t)(i + (i >> 8) % 16)); }
+    if (ctx.thorough()) for (int i = 0; i < 65536; i += 512) bs.push_back((uint16_t)(i + (i >> 9) % 512));
     for (int a = 0; a < 65536; a++) {
         if (!ctx.mine(idx++)) continue;
         Bytes av{ (uint8_t) a, (uint8_t)(a >> 8) };
